@@ -9,6 +9,7 @@
 #include <cstdio>
 #include <cstdlib>
 #include <cstring>
+#include <ctime>
 #include <dlfcn.h>
 #include <exception>
 #include <fstream>
@@ -222,9 +223,16 @@ static void fwait(std::atomic<int>* a) {
 }
 static void fwake(std::atomic<int>* a) { a->store(1, std::memory_order_release); syscall(SYS_futex, (int*)a, FUTEX_WAKE_PRIVATE, 1, nullptr, nullptr, 0); }
 
+// harness-level waits (directed scenarios): a waiting thread is simply not runnable, it takes no steps
+static int hflags[16]; static int hw_kind[MAXT], hw_arg[MAXT];   // kind 0 none, 1 flag, 2 exit of a thread
 static void refresh_parked() {
   for (int t = 0; t < nthreads; t++)
     if (status[t] == WAITSTART && status[start_after[t]] == DONE) status[t] = RUNNABLE;
+  for (int t = 0; t < nthreads; t++)
+    if (status[t] == BLOCKED && hw_kind[t] != 0 &&
+        ((hw_kind[t] == 1 && hflags[hw_arg[t] & 15]) || (hw_kind[t] == 2 && (hw_arg[t] >= nthreads || status[hw_arg[t]] == DONE)))) {
+      status[t] = RUNNABLE; hw_kind[t] = 0;
+    }
   for (int t = 0; t < nthreads; t++)
     if (status[t] == PARKED && park_epoch[t] != write_epoch) { status[t] = RUNNABLE; spin_n[t] = 0; }
 }
@@ -394,7 +402,7 @@ struct Sentinel {
   ~Sentinel() {
     if (my_tid >= 0 && active) {
       int me = my_tid;
-      status[me] = DONE;
+      status[me] = DONE; write_epoch++;     // wakes threads parked in a harness wait (thread_done)
       if (solo_active && me == solo_thread) finish_child("solo_na", 0);
       int next = pick(-1);
       my_tid = -1;
@@ -405,6 +413,20 @@ struct Sentinel {
 };
 static thread_local Sentinel sentinel;
 void track_thread() { (void)&sentinel; }
+bool thread_done(int t) { return t >= 0 && t < nthreads && status[t] == DONE; }
+static void harness_wait(int kind, int arg) {
+  if (!active || my_tid < 0) return;
+  int me = my_tid;
+  for (;;) {
+    bool ok = kind == 1 ? hflags[arg & 15] != 0 : (arg >= nthreads || status[arg] == DONE);
+    if (ok) return;
+    status[me] = BLOCKED; blocked_on[me] = nullptr; hw_kind[me] = kind; hw_arg[me] = arg;
+    int next = pick(me); switch_to(next, me);
+  }
+}
+void sync_set(int i) { hflags[i & 15] = 1; }
+void sync_wait(int i) { harness_wait(1, i); }
+void wait_exit(int t) { harness_wait(2, t); }
 
 // ------------------------------------------------------------------------------------------
 // step-level events and memory model
@@ -492,6 +514,7 @@ void __tsan_write_range(void* a, unsigned long n) { chk(a, "wr"); if (n > 1) chk
 
 #define XV_ATOM(bits, T) \
   T __tsan_atomic##bits##_load(const volatile T* a, int mo) { \
+    if (bits == 8 && mo == 2 && !in_arena((const void*)a) && __atomic_load_n(a, __ATOMIC_SEQ_CST) == (T)1) return (T)1; /* set guard variable of a function-local static: not an access of the code under test */ \
     sched_point(K_READ, (const void*)a, 0); chk((const void*)a, "ald"); \
     T v = __atomic_load_n(a, __ATOMIC_SEQ_CST); \
     step_ev("ld", (const void*)a, (uint64_t)v, mo, 1, __builtin_return_address(0)); \
@@ -729,7 +752,7 @@ struct Stats {
 int explore_main(int argc, char** argv, const std::function<Scenario(const std::string&)>& make) {
   std::vector<std::string> progs; std::string out, modes = "dfs", replay_file;
   long max_exec = 20000, runs = 1000, seed = 1; int shard_i = 0, shard_n = 1; int alarm_s = 10; long solo_every = 0;
-  long max_distinct = 1000000; long r_solo_at = -1; int r_solo_thread = -1;
+  long max_distinct = 1000000; long r_solo_at = -1; int r_solo_thread = -1; double time_budget = 0;
   for (int i = 1; i < argc; i++) {
     std::string a = argv[i];
     auto next = [&]() -> std::string { if (i + 1 >= argc) { fprintf(stderr, "missing value for %s\n", a.c_str()); exit(2); } return argv[++i]; };
@@ -751,6 +774,7 @@ int explore_main(int argc, char** argv, const std::function<Scenario(const std::
     else if (a == "--solo-at") r_solo_at = atol(next().c_str());
     else if (a == "--solo-thread") r_solo_thread = atoi(next().c_str());
     else if (a == "--weak") weakW = atoi(next().c_str());
+    else if (a == "--time-budget") time_budget = atof(next().c_str());
     else { fprintf(stderr, "xvrt: unknown option %s\n", a.c_str()); return 2; }
   }
   if (progs.empty() && modes != "replay") { fprintf(stderr, "xvrt: no programs\n"); return 2; }
@@ -758,6 +782,15 @@ int explore_main(int argc, char** argv, const std::function<Scenario(const std::
   if (!fo) { perror("open out"); return 2; }
   FILE* fs = out.empty() ? nullptr : fopen((out + ".sched").c_str(), "w");
   Stats S;
+  // wall-clock budget (thorough tier): program pi may run until its share of the remaining time is used up; the search is then
+  // recorded as truncated (coverage varies with machine load, verdicts do not: every reported execution is replayable)
+  auto now_s = []() { struct timespec ts; clock_gettime(CLOCK_MONOTONIC, &ts); return (double)ts.tv_sec + 1e-9 * (double)ts.tv_nsec; };
+  const double t_start = now_s(); size_t budget_pi = (size_t)-1; double budget_deadline = 0;
+  auto over_budget = [&](size_t pi) {
+    if (time_budget <= 0) return false;
+    if (pi != budget_pi) { budget_pi = pi; double left = time_budget - (now_s() - t_start); if (left < 0) left = 0; budget_deadline = now_s() + left / (double)(progs.size() - pi); }
+    return now_s() > budget_deadline;
+  };
   std::unordered_set<uint64_t> seen;
   long traceno = 0;
   auto emit = [&](const std::string& prog, int pi, const ChildResult& r) {
@@ -832,7 +865,7 @@ int explore_main(int argc, char** argv, const std::function<Scenario(const std::
           first = false;
           while (!decs_after.empty() && decs_after.back().chosen + 1 >= decs_after.back().nopts) decs_after.pop_back();
           if (decs_after.empty()) break;
-          if (n_exec >= max_exec) { S.truncated++; truncated = true; break; }
+          if (n_exec >= max_exec || over_budget(pi)) { S.truncated++; truncated = true; break; }
           decs_after.back().chosen++;
           prefix = decs_after;
         }
@@ -845,7 +878,7 @@ int explore_main(int argc, char** argv, const std::function<Scenario(const std::
         long L = base.steps > 0 ? base.steps : 1;
         uint64_t st = (uint64_t)seed * 7919ull + pi * 104729ull + 12345;
         auto nx = [&]() { st ^= st << 13; st ^= st >> 7; st ^= st << 17; return st; };
-        for (long k = 1; k < runs; k++) {
+        for (long k = 1; k < runs && !over_budget(pi); k++) {
           ChildCtl c; c.mode = M_RANDOM; c.seed = nx();
           int npre = 1 + (int)(nx() % (uint64_t)(pb > 0 ? pb : 1));
           for (int j = 0; j < npre; j++) c.rnd_points.push_back((long)(nx() % (uint64_t)(L + L / 4 + 1)));
